@@ -133,6 +133,7 @@ def e2e_oracle(raw):
     return None
 
 E2E_PROGS = ['C0/()/SPPPP', 'C0C1/(())/SPSPPP']
+E2E_FREE_PROGS = ['C0/()/HSSKPP', 'C0/()/HSKSPP']
 def run_e2e(ctx):
     """(d) the abstraction of call_rcu used by scen_poll is not trusted alone: the same poll code runs on the real helper thread of src/urcu-call-rcu-impl.h and the
     real memb grace period.  Targeted family: the helper is frozen k steps into its cycle for an unrelated callback (before, inside and after its synchronize_rcu());
@@ -145,9 +146,16 @@ def run_e2e(ctx):
         for k in range(0, 240 if ctx.quick() else 400, 1):
             for m in ((60,) if ctx.quick() else (60, 200)):
                 cases.append((prog, '>0' + '3d' * k + '>1' + '>2' + '3d' * m + '>2' + '3d' * 200 + '>2' + '>1' + '3d' * 700 + '>2' + '3d' * 300 + '>2'))
+    # handles taken through a per-thread helper that is freed while their callback is pending or re-queued: the leftover callbacks move to the default helper, which
+    # has gone to sleep after an earlier, unrelated callback; every handle must still complete (final poll at quiescence).  Threads: 0 unrelated call_rcu, 1 reader,
+    # 2 the polling thread (H = own helper, K = free it), 3 the default helper, 4 the per-thread helper.
+    for prog in E2E_FREE_PROGS:
+        for k in range(0, 160 if ctx.quick() else 300, 4 if ctx.quick() else 1):
+            for j in ((0, 40) if ctx.quick() else (0, 10, 40, 120)):
+                cases.append((prog, '>0' + '3d' * 300 + '>1' + '>2>2' + '4e' * k + '>2' + '2c' * j + '>1' + '4e' * 400 + '2c' * 400 + '3d' * 300))
     n = len(cases) + (60 if ctx.quick() else 1500)
     while len(cases) < n:
-        prog = ctx.rng.choice(E2E_PROGS); th = [str(i) for i in range(prog.count('/') + 3)]
+        prog = ctx.rng.choice(E2E_PROGS + E2E_FREE_PROGS); th = [str(i) for i in range(prog.count('/') + 3)]
         cases.append((prog, bursty(ctx.rng, th, lo=60, hi=600, flush=ctx.rng.choice([0.05, 0.3]), means=(1, 3, 10, 30, 80))))
     tail = ''.join(chr(ord('a') + i) + str(i) for i in range(6)) * 500
     rs = run_many([[impl, p, s + tail] for p, s in cases], timeout=30)
@@ -160,7 +168,7 @@ def run_e2e(ctx):
         if re.search(r'ret poll 1', raw) and re.search(r'ret poll 0', raw): distinct.add(hash(raw))
     ctx.cov['evaluations'] += len(cases); ctx.cov['distinct_nontrivial'] += len(distinct)
     ctx.cov['oracle_violations'] = ctx.cov.get('oracle_violations', 0) + nor
-    ctx.cov['input_distribution']['scen_callrcu (real helper, ops S/P)'] = {'cases': len(cases), 'programs': E2E_PROGS, 'both_answers_seen': len(distinct)}
+    ctx.cov['input_distribution']['scen_callrcu (real helper, ops S/P)'] = {'cases': len(cases), 'programs': E2E_PROGS + E2E_FREE_PROGS, 'both_answers_seen': len(distinct)}
 
 def run(ctx):
     ctx.cov['source_hash'] = source_hash(FILES)
